@@ -237,7 +237,8 @@ def proof_obligations(pid):
 # name -> (generated files in build order as (file, translate function suffix), committed proof file)
 TRANSLATORS = {"scoring": ([("ScoringGen.v", "scoring")], "ScoringGenProof.v"),
                "copeland": ([("CopelandGen.v", "copeland")], "CopelandGenProof.v"),
-               "stv": ([("ScoringGen.v", "scoring"), ("StvGen.v", "stv")], "StvGenProof.v")}
+               "stv": ([("ScoringGen.v", "scoring"), ("StvGen.v", "stv")], "StvGenProof.v"),
+               "elicitor": ([("ElicitorGen.v", "elicitor")], "ElicitorGenProof.v")}
 
 def translator_obligation(name):
     """regenerate the model of <name> from /repo's current source (harness/translate.py), compile it, and re-check the
